@@ -14,6 +14,8 @@ Section Doc.
   (* a string literal: an ordinary string, or a missing field (which is the empty string) *)
   Definition str_of (v : value) (s : str) : Prop := v = VStr s \/ (exists n, v = VMissing n) /\ s = [].
   Definition all_strs (l : list value) (ss : list str) : Prop := Forall2 str_of l ss.
+  (* what top$ / stack$ print for an integer or string literal *)
+  Definition prints_as (v : value) (t : str) : Prop := (exists z, v = VInt z /\ t = Z_to_str z) \/ str_of v t.
 
   Inductive builtin_doc : builtin -> state -> state -> Prop :=
   (* ">" "<" "=": pop two integers, compare the second with the first, push 1 or 0; "=" also on strings *)
@@ -110,6 +112,8 @@ Section Doc.
       builtin_doc B_top st (add_print (set_stack st r) (Z_to_str z ++ [c_nl]))
   | D_top_str st v s r : st_stack st = v :: r -> str_of v s ->
       builtin_doc B_top st (add_print (set_stack st r) (s ++ [c_nl]))
+  | D_stack st ts : Forall2 prints_as (st_stack st) ts ->
+      builtin_doc B_stack st (add_print (set_stack st []) (concat (map (fun t => t ++ [c_nl]) ts)))
   | D_warning st v s r : st_stack st = v :: r -> str_of v s ->
       builtin_doc B_warning st (add_warn (set_stack st r) [WUser v]).
 End Doc.
